@@ -295,5 +295,5 @@ func drawCase(t *rapid.T) Case {
 }
 
 func TestSampled(t *testing.T) {
-	vk.Run(t, subName, vk.Opts{Quick: 240000, Thorough: 12000000}, drawCase, runCase("sampled"))
+	vk.Run(t, subName, vk.Opts{Quick: 240000, Thorough: 8000000, NoCrumb: true}, drawCase, runCase("sampled"))
 }
